@@ -102,6 +102,8 @@ def run(ctx):
     if runner is None:
         ctx.oblige("extracted dispatcher model builds", False, "see notes")
     thorough = ctx.tier == "thorough"
+    import threading as _real_threading
+    threads_before = _real_threading.active_count()
     rng = ctx.rng
     t0 = time.time()
 
@@ -237,6 +239,9 @@ def run(ctx):
                 ctx.report("model-explorer", "the extracted model reaches a state violating Spec/Pool.v: " + ans,
                            {"failing_input_found": True, "model_schedule": kv.get("witness", ""), "answer": ans})
 
+    ctx.oblige("no thread of any case is left running (every case is driven to quiescence and killed)",
+               _real_threading.active_count() == threads_before,
+               "threads alive: %d before, %d after" % (threads_before, _real_threading.active_count()))
     # -- report ----------------------------------------------------------------------------
     conf_fail = [f for f in failures if f[0].startswith("conformance")]
     mon_fail = [f for f in failures if f[0].startswith("monitor")]
